@@ -17,6 +17,12 @@ Definition site_count (s : fsite) (c : ioctx) : N :=
 (* the fp_nth-th call (from 0) of the plan's site has been made *)
 Definition fired (p : fplan) (c : ioctx) : Prop := site_count (fp_site p) c > fp_nth p.
 
+(* R2: directory.rs read_block maps an UnexpectedEof from read_exact to Ok(false) ("no more
+   blocks in this file"), so a fault of kind UnexpectedEof injected at site Read is absorbed as
+   end-of-file at every read except the first one of recovery. Such plans are not reportable. *)
+Definition absorbed (p : fplan) : Prop := fp_site p = SRead /\ fp_kind p = IoUnexpectedEof.
+Definition reportable (p : fplan) : Prop := ~ (fp_site p = SRead /\ fp_kind p = IoUnexpectedEof).
+
 (* the plan is installed and has not fired yet *)
 Definition quiet (p : fplan) (c : ioctx) : Prop :=
   c_plan c = Some p /\ site_count (fp_site p) c <= fp_nth p.
@@ -64,6 +70,16 @@ Proof.
     unfold site_count in *. destruct (fp_site p), s; cbn; try exact Hc; discriminate.
 Qed.
 
+(* a fault that fires is the plan's, at the plan's site *)
+Lemma fault_point_some p c s c' e :
+  c_plan c = Some p -> fault_point c s = (c', Some e) -> fp_site p = s /\ e = fp_kind p.
+Proof.
+  unfold fault_point. intros Hp. rewrite Hp.
+  destruct (site_eqb (fp_site p) s) eqn:Es; cbn [andb]; [|intros H; inversion H].
+  apply site_eqb_eq in Es.
+  destruct (_ || _); intros H; inversion H. split; [exact Es|reflexivity].
+Qed.
+
 Lemma open_file_quiet p c n c' u :
   quiet p c -> open_file c n = (c', Ok u) -> quiet p c'.
 Proof.
@@ -84,12 +100,16 @@ Qed.
 Section Reader.
 Variable P : params.
 Variable p : fplan.
+Hypothesis Hrep : reportable p.
 
 Lemma read_block_quiet c n pos c' pos' x :
   quiet p c -> read_block P c n pos = (c', pos', Ok x) -> quiet p c'.
 Proof.
   intros Hq. unfold read_block.
-  destruct (fault_point c SRead) as [c1 [e|]] eqn:Hf; [intros H; inversion H|].
+  destruct (fault_point c SRead) as [c1 [e|]] eqn:Hf.
+  { destruct (fault_point_some _ _ _ _ _ (proj1 Hq) Hf) as [Hs He].
+    intros H. exfalso. destruct e; try (inversion H; fail).
+    apply Hrep. split; [exact Hs|symmetry; exact He]. }
   pose proof (fault_point_quiet _ _ _ _ Hq Hf) as Hq1.
   destruct (pos + BS P <=? lenN (file_content c1 n)); intros H; inversion H; subst;
     (eapply quiet_ceq; [apply ceq_ev|exact Hq1]).
@@ -250,6 +270,7 @@ End GenericWriter.
 Section Writer.
 Variable P : params.
 Variable p : fplan.
+Hypothesis Hrep : reportable p.
 
 Lemma os_write_ceq c n off d : ceq c (os_write c n off d).
 Proof. repeat split. Qed.
@@ -386,7 +407,7 @@ Proof.
     { intros Hg. unfold reader_ctx in *.
       eapply (go_next_Q P rreaderS (rd_next P) rd_block (fun rd => quiet p (rd_ctx rd)));
         [|exact Hq|exact Hgo|exact Hg].
-      intros r r' b Hr Hn. eapply rd_next_quiet; eassumption. }
+      intros r r' b Hr Hn. eapply (rd_next_quiet P p Hrep); eassumption. }
     destruct gres as [| | |e|].
     + specialize (Hq1 ltac:(discriminate)).
       destruct (entry_deser (rr_buf rr1)) as [e|].
@@ -412,7 +433,7 @@ Lemma open_with_quiet fuel fs pol hint :
 Proof.
   intros HIO. unfold open_with.
   destruct (rd_open P (ctx_init fs (Some p))) as [c [rd|e]] eqn:Ho; [|exact I].
-  apply rd_open_quiet in Ho. destruct Ho as [Hq _].
+  apply (rd_open_quiet P p Hrep) in Ho. destruct Ho as [Hq _].
   destruct (replay_loop P fuel fuel (rr_open rreaderS rd) []) as [rr rp] eqn:Hrp.
   assert (Hq1 : (forall e, rp <> RpIo e) -> quiet p (reader_ctx rr)).
   { intros Hn. eapply replay_loop_quiet; [exact HIO| |exact Hrp|exact Hn]. exact Hq. }
@@ -462,9 +483,419 @@ Proof.
 Qed.
 End Writer.
 
+
+(* ====================================================================== *)
+(* R2: the excluded case — site Read, kind UnexpectedEof.                  *)
+(* Such a fault is never reported by a read: read_block turns it into       *)
+(* "no more blocks in this file" (directory.rs read_block: Ok(false)), as   *)
+(* if the file were cut at that block. The only way the kind UnexpectedEof  *)
+(* reaches the caller of open is RollingReader::open's first read.          *)
+(* ====================================================================== *)
+Definition planned (p : fplan) (c : ioctx) : Prop := c_plan c = Some p.
+Definition not_eof {A} (r : res A) : Prop := r <> Err IoUnexpectedEof.
+
+Lemma planned_ceq p c c' : ceq c c' -> planned p c -> planned p c'.
+Proof. unfold ceq, planned. intros (H1 & _). congruence. Qed.
+
+Lemma fault_point_planned p c s : planned p c -> planned p (fst (fault_point c s)).
+Proof.
+  unfold planned, fault_point. intros Hp. rewrite Hp.
+  destruct (_ && _); destruct s; cbn [fst c_plan]; reflexivity.
+Qed.
+
+Lemma create_file_not_eof P c n c' r : create_file P c n = (c', r) -> not_eof r.
+Proof.
+  unfold create_file. destruct (fs_get (c_fs c) (filename n)); intros H; inversion H; subst;
+    intros X; discriminate X.
+Qed.
+
+Lemma gc_loop_not_eof : forall files c refd c' files' r,
+  gc_loop c files refd = (c', files', r) -> not_eof r.
+Proof.
+  induction files as [|f rest IH]; intros c refd c' files' r H; cbn [gc_loop] in H.
+  - inversion H; subst. intros X; discriminate X.
+  - destruct rest as [|g rest']; [inversion H; subst; intros X; discriminate X|].
+    destruct (refd f); [inversion H; subst; intros X; discriminate X|].
+    destruct (fs_get (c_fs c) (filename f)) as [[b| |]|].
+    + eapply IH; exact H.
+    + inversion H; subst; intros X; discriminate X.
+    + eapply IH; exact H.
+    + inversion H; subst; intros X; discriminate X.
+Qed.
+
+(* the generic frame/record layers only pass on the errors of the block reader / writer *)
+Section GenericReaderErr.
+Variable P : params.
+Variable R : Type.
+Variable rnext : R -> R * res bool.
+Variable rblock : R -> bytes.
+Variable Q : R -> Prop.
+Hypothesis rnext_QE : forall r r' x, Q r -> rnext r = (r', x) -> Q r' /\ not_eof x.
+
+Lemma read_frame_QE fr fr' res :
+  Q (fr_rd fr) -> read_frame P R rnext rblock fr = (fr', res) ->
+  Q (fr_rd fr') /\ res <> FIo IoUnexpectedEof.
+Proof.
+  intros Hq H. rewrite read_frame_eq in H.
+  destruct (need_skip P fr).
+  - destruct (rnext (fr_rd fr)) as [r' x] eqn:Hn.
+    destruct (rnext_QE _ _ _ Hq Hn) as [Hq' Hne].
+    destruct x as [[|]|e].
+    + apply read_here_spec in H. destruct H as [Hrd Hm]. rewrite Hrd. cbn [fr_rd].
+      split; [exact Hq'|]. intros X; subst res. exact Hm.
+    + inversion H; subst. cbn [fr_rd]. split; [exact Hq'|discriminate].
+    + inversion H; subst. cbn [fr_rd]. split; [exact Hq'|].
+      intros X; inversion X; subst. apply Hne. reflexivity.
+  - apply read_here_spec in H. destruct H as [Hrd Hm]. rewrite Hrd.
+    split; [exact Hq|]. intros X; subst res. exact Hm.
+Qed.
+
+Lemma go_next_QE : forall fuel rr rr' res,
+  Q (fr_rd (rr_fr rr)) -> go_next P R rnext rblock fuel rr = (rr', res) ->
+  Q (fr_rd (rr_fr rr')) /\ res <> RIo IoUnexpectedEof.
+Proof.
+  induction fuel as [|f IH]; intros rr rr' res Hq H.
+  - cbn [go_next] in H. inversion H; subst. split; [exact Hq|discriminate].
+  - rewrite go_next_S in H.
+    destruct (read_frame P R rnext rblock (rr_fr rr)) as [fr' fres] eqn:Hrf.
+    destruct (read_frame_QE _ _ _ Hq Hrf) as [Hq' Hne].
+    destruct fres as [t pl|e| |].
+    + cbv zeta in H.
+      destruct (if is_first_frame t then true else rr_within rr).
+      * destruct (is_last_frame t); [inversion H; subst; split; [exact Hq'|discriminate]|].
+        eapply IH; [|exact H]. exact Hq'.
+      * eapply IH; [|exact H]. exact Hq'.
+    + inversion H; subst. split; [exact Hq'|].
+      intros X; inversion X; subst. apply Hne. reflexivity.
+    + inversion H; subst. split; [exact Hq'|discriminate].
+    + inversion H; subst. split; [exact Hq'|discriminate].
+Qed.
+End GenericReaderErr.
+
+Section GenericWriterErr.
+Variable P : params.
+Variable W : Type.
+Variable wwrite : W -> bytes -> W * res unit.
+Variable wrem : W -> N.
+Variable Q : W -> Prop.
+Hypothesis wwrite_QE : forall w d w' r, Q w -> wwrite w d = (w', r) -> Q w' /\ not_eof r.
+
+Lemma write_frame_QE w t pl w' r :
+  Q w -> write_frame P W wwrite wrem w t pl = (w', r) -> Q w' /\ not_eof r.
+Proof.
+  intros Hq. unfold write_frame.
+  destruct (wrem w <? HEADER_LEN).
+  - destruct (wwrite w (zerosN (wrem w))) as [w1 [u|e]] eqn:H1;
+      destruct (wwrite_QE _ _ _ _ Hq H1) as [Hq1 Hn1].
+    + destruct (wwrite w1 (frame_bytes P t pl)) as [w2 [u2|e]] eqn:H2;
+        destruct (wwrite_QE _ _ _ _ Hq1 H2) as [Hq2 Hn2]; intros H; inversion H; subst;
+        (split; [exact Hq2|]); [intros X; discriminate X|].
+      intros X; inversion X; subst. apply Hn2. reflexivity.
+    + intros H; inversion H; subst. split; [exact Hq1|].
+      intros X; inversion X; subst. apply Hn1. reflexivity.
+  - destruct (wwrite w (frame_bytes P t pl)) as [w2 [u2|e]] eqn:H2;
+      destruct (wwrite_QE _ _ _ _ Hq H2) as [Hq2 Hn2]; intros H; inversion H; subst;
+      (split; [exact Hq2|]); [intros X; discriminate X|].
+    intros X; inversion X; subst. apply Hn2. reflexivity.
+Qed.
+
+Lemma write_record_loop_QE : forall fuel w isf pl acc w' r,
+  Q w -> write_record_loop P W wwrite wrem fuel w isf pl acc = (w', r) -> Q w' /\ not_eof r.
+Proof.
+  induction fuel as [|f IH]; intros w isf pl acc w' r Hq H; cbn [write_record_loop] in H.
+  - inversion H; subst. split; [exact Hq|intros X; discriminate X].
+  - cbv zeta in H.
+    destruct (write_frame P W wwrite wrem w _ _) as [w1 [k|e]] eqn:Hw;
+      destruct (write_frame_QE _ _ _ _ _ Hq Hw) as [Hq1 Hn1].
+    + destruct (isnil _); [inversion H; subst; split; [exact Hq1|intros X; discriminate X]|].
+      eapply IH; eassumption.
+    + inversion H; subst. split; [exact Hq1|].
+      intros X; inversion X; subst. apply Hn1. reflexivity.
+Qed.
+
+Lemma write_record_QE w pl w' r :
+  Q w -> write_record P W wwrite wrem w pl = (w', r) -> Q w' /\ not_eof r.
+Proof. unfold write_record. apply write_record_loop_QE. Qed.
+End GenericWriterErr.
+
+Section Absorbed.
+Variable P : params.
+Variable p : fplan.
+Hypothesis Habs : absorbed p.
+
+(* the plan never fires at the other sites *)
+Lemma open_file_abs c n c' r :
+  planned p c -> open_file c n = (c', r) -> planned p c' /\ not_eof r.
+Proof.
+  intros Hp. unfold open_file. pose proof (fault_point_planned p c SOpen Hp) as Hp1.
+  destruct (fault_point c SOpen) as [c1 [e|]] eqn:Hf; cbn [fst] in Hp1.
+  - destruct (fault_point_some _ _ _ _ _ Hp Hf) as [Hs _]. destruct Habs as [Hs' _].
+    rewrite Hs' in Hs. discriminate Hs.
+  - destruct (fs_get (c_fs c1) (filename n)) as [[b| |]|]; intros H; inversion H; subst;
+      (split; [first [exact Hp1|eapply planned_ceq; [apply ceq_ev|exact Hp1]]
+              |intros X; discriminate X]).
+Qed.
+
+(* when it fires at a read, the read is a short read at an unchanged position *)
+Lemma read_block_absorbed c n pos c1 e :
+  planned p c -> fault_point c SRead = (c1, Some e) ->
+  read_block P c n pos = (ctx_ev c1 (EvRead (filename n) pos (BS P) false), pos, Ok None).
+Proof.
+  intros Hp Hf. unfold read_block. rewrite Hf.
+  destruct (fault_point_some _ _ _ _ _ Hp Hf) as [_ He]. destruct Habs as [_ Hk].
+  rewrite He, Hk. reflexivity.
+Qed.
+
+(* ... which is, position and result, the read of the same file cut at that block *)
+Lemma read_block_absorbed_as_cut c n pos c1 e :
+  0 < BS P -> planned p c -> fault_point c SRead = (c1, Some e) ->
+  let cut := ctx_fs (ctx_init (c_fs c) None)
+               (fs_put (c_fs c) (filename n) (FFile (takeN pos (file_content c n)))) in
+  forall c' pos' r, read_block P cut n pos = (c', pos', r) ->
+  snd (fst (read_block P c n pos)) = pos' /\ snd (read_block P c n pos) = r /\
+  c_ev c' = [EvRead (filename n) pos (BS P) false].
+Proof.
+  intros HBS Hp Hf cut c' pos' r. rewrite (read_block_absorbed c n pos c1 e Hp Hf).
+  cbn [fst snd]. unfold cut. set (b0 := file_content c n).
+  unfold read_block, ctx_fs, ctx_init, fault_point, file_content.
+  cbn [c_plan c_fs c_ev c_nreaddir c_nopen c_nread ctx_ev].
+  rewrite fs_get_put, bytes_eqb_refl.
+  pose proof (lenN_takeN pos b0) as Hl.
+  destruct (N.leb_spec (pos + BS P) (lenN (takeN pos b0))) as [Hle|Hgt].
+  - exfalso. lia.
+  - intros H; inversion H; subst. repeat split. lia.
+Qed.
+
+Lemma read_block_abs c n pos c' pos' r :
+  planned p c -> read_block P c n pos = (c', pos', r) -> planned p c' /\ exists x, r = Ok x.
+Proof.
+  intros Hp. pose proof (fault_point_planned p c SRead Hp) as Hp1.
+  destruct (fault_point c SRead) as [c1 [e|]] eqn:Hf; cbn [fst] in Hp1.
+  - rewrite (read_block_absorbed c n pos c1 e Hp Hf). intros H; inversion H; subst.
+    split; [eapply planned_ceq; [apply ceq_ev|exact Hp1]|eexists; reflexivity].
+  - unfold read_block. rewrite Hf.
+    destruct (pos + BS P <=? lenN (file_content c1 n)); intros H; inversion H; subst;
+      (split; [eapply planned_ceq; [apply ceq_ev|exact Hp1]|eexists; reflexivity]).
+Qed.
+
+Lemma next_file_loop_abs : forall cands c rd rd' r,
+  planned p c -> next_file_loop P c cands rd = (rd', r) -> planned p (rd_ctx rd') /\ not_eof r.
+Proof.
+  induction cands as [|n rest IH]; intros c rd rd' r Hp H; cbn [next_file_loop] in H.
+  - inversion H; subst. split; [exact Hp|intros X; discriminate X].
+  - destruct (open_file c n) as [c1 ro] eqn:Ho.
+    destruct (open_file_abs _ _ _ _ Hp Ho) as [Hp1 Hn1].
+    destruct ro as [u|e].
+    + destruct (read_block P c1 n 0) as [[c2 pos'] rr] eqn:Hr.
+      destruct (read_block_abs _ _ _ _ _ _ Hp1 Hr) as [Hp2 [x Hx]]. subst rr.
+      destruct x as [blk|].
+      * inversion H; subst. split; [exact Hp2|intros X; discriminate X].
+      * eapply IH; eassumption.
+    + inversion H; subst. split; [exact Hp1|].
+      intros X; inversion X; subst. apply Hn1. reflexivity.
+Qed.
+
+Lemma rd_next_abs rd rd' r :
+  planned p (rd_ctx rd) -> rd_next P rd = (rd', r) -> planned p (rd_ctx rd') /\ not_eof r.
+Proof.
+  intros Hp. unfold rd_next.
+  destruct (read_block P (rd_ctx rd) (rd_file rd) (rd_pos rd)) as [[c1 pos'] rr] eqn:Hr.
+  destruct (read_block_abs _ _ _ _ _ _ Hp Hr) as [Hp1 [x Hx]]. subst rr.
+  destruct x as [blk|].
+  - intros H; inversion H; subst. split; [exact Hp1|intros X; discriminate X].
+  - intros H. eapply next_file_loop_abs; eassumption.
+Qed.
+
+Lemma replay_loop_abs : forall f g rr qs rr' res,
+  planned p (reader_ctx rr) -> replay_loop P f g rr qs = (rr', res) ->
+  planned p (reader_ctx rr') /\ res <> RpIo IoUnexpectedEof.
+Proof.
+  induction f as [|f IH]; intros g rr qs rr' res Hp H.
+  - cbn [replay_loop] in H. inversion H; subst. split; [exact Hp|discriminate].
+  - rewrite replay_loop_S in H. cbv zeta in H.
+    destruct (go_next P rreaderS (rd_next P) rd_block g rr) as [rr1 gres] eqn:Hgo.
+    assert (Hq1 : planned p (reader_ctx rr1) /\ gres <> RIo IoUnexpectedEof).
+    { unfold reader_ctx in *.
+      eapply (go_next_QE P rreaderS (rd_next P) rd_block (fun rd => planned p (rd_ctx rd)));
+        [|exact Hp|exact Hgo].
+      intros r r' x Hr Hn. eapply rd_next_abs; eassumption. }
+    destruct Hq1 as [Hp1 Hne].
+    destruct gres as [| | |e|].
+    + destruct (entry_deser (rr_buf rr1)) as [e|].
+      * destruct (apply_entry qs (rd_file (fr_rd (rr_fr rr))) e) as [qs'|].
+        -- eapply IH; eassumption.
+        -- inversion H; subst. split; [exact Hp1|discriminate].
+      * eapply IH; eassumption.
+    + inversion H; subst. split; [exact Hp1|discriminate].
+    + eapply IH; eassumption.
+    + destruct (L_IO P); [eapply IH; eassumption|].
+      inversion H; subst. split; [exact Hp1|].
+      intros X; inversion X; subst. apply Hne. reflexivity.
+    + inversion H; subst. split; [exact Hp1|discriminate].
+Qed.
+
+Lemma wr_write_abs w d w' r :
+  planned p (w_ctx w) -> wr_write P w d = (w', r) -> planned p (w_ctx w') /\ not_eof r.
+Proof.
+  intros Hp. unfold wr_write.
+  destruct d as [|b d]; [intros H; inversion H; subst; split; [exact Hp|intros X; discriminate X]|].
+  destruct (FILE_BYTES P <? w_off w + lenN (b :: d)).
+  - set (w1 := sync_dir (sync_data (bw_flush w))).
+    assert (Hp1 : planned p (w_ctx w1)) by (eapply planned_ceq; [apply roll_ceq|exact Hp]).
+    destruct (tracker_next (w_files w1) (w_file w1)) as [nxt|].
+    + destruct (open_file (w_ctx w1) nxt) as [c ro] eqn:Ho.
+      destruct (open_file_abs _ _ _ _ Hp1 Ho) as [Hp2 Hn2].
+      destruct ro as [u1|e]; intros H; inversion H; subst.
+      * split; [|intros X; discriminate X].
+        eapply planned_ceq; [apply bw_write_all_ceq|]. exact Hp2.
+      * split; [exact Hp2|]. intros X; inversion X; subst. apply Hn2. reflexivity.
+    + destruct (create_file P (w_ctx w1) (w_file w1 + 1)) as [c ro] eqn:Hc.
+      pose proof (create_file_not_eof _ _ _ _ _ Hc) as Hn2.
+      assert (Hp2 : planned p c) by (eapply planned_ceq; [eapply create_file_ceq; exact Hc|exact Hp1]).
+      destruct ro as [u1|e]; intros H; inversion H; subst.
+      * split; [|intros X; discriminate X].
+        eapply planned_ceq; [apply bw_write_all_ceq|]. exact Hp2.
+      * split; [exact Hp2|]. intros X; inversion X; subst. apply Hn2. reflexivity.
+  - intros H; inversion H; subst.
+    split; [eapply planned_ceq; [apply bw_write_all_ceq|exact Hp]|intros X; discriminate X].
+Qed.
+
+Definition stp (st : state) : Prop := planned p (w_ctx (s_wr st)).
+
+Lemma write_entry_abs st e st' r :
+  stp st -> write_entry P st e = (st', r) -> stp st' /\ not_eof r.
+Proof.
+  unfold stp, write_entry. intros Hp.
+  destruct (write_record P rwriter (wr_write P) (wr_rem P) (s_wr st) (entry_ser e)) as [w r0] eqn:Hw.
+  intros H; inversion H; subst. cbn [s_wr set_wr].
+  eapply (write_record_QE P rwriter (wr_write P) (wr_rem P) (fun w => planned p (w_ctx w)));
+    [|exact Hp|exact Hw].
+  intros w0 d w0' u Hq0 Hw0. eapply wr_write_abs; eassumption.
+Qed.
+
+Lemma persist_abs st a : stp st -> stp (persist st a).
+Proof.
+  unfold stp, persist. cbn [s_wr set_wr]. intros Hp.
+  eapply planned_ceq; [apply wr_persist_ceq|exact Hp].
+Qed.
+
+Lemma record_positions_abs : forall names st acc st' r,
+  stp st -> record_positions P st names acc = (st', r) -> stp st' /\ not_eof r.
+Proof.
+  induction names as [|x l IH]; intros st acc st' r Hp H; cbn [record_positions] in H.
+  - inversion H; subst. split; [exact Hp|intros X; discriminate X].
+  - destruct (qs_get (s_qs st) x) as [q|]; [|eapply IH; eassumption].
+    destruct (write_entry P st (EPosition x (next_position q))) as [st1 ro] eqn:Hw.
+    destruct (write_entry_abs _ _ _ _ Hp Hw) as [Hp1 Hn1].
+    destruct ro as [k|e]; [eapply IH; eassumption|].
+    inversion H; subst. split; [exact Hp1|exact Hn1].
+Qed.
+
+Lemma record_empty_abs st hint st' r :
+  stp st -> record_empty_queues_position P st hint = (st', r) -> stp st' /\ not_eof r.
+Proof.
+  intros Hp. unfold record_empty_queues_position.
+  destruct (record_positions P st _ 0) as [st1 ro] eqn:Hr.
+  destruct (record_positions_abs _ _ _ _ _ Hp Hr) as [Hp1 Hn1].
+  destruct ro as [k|e]; [|intros H; inversion H; subst; split; [exact Hp1|exact Hn1]].
+  destruct (L_GC P && (k =? 0)); intros H; inversion H; subst;
+    (split; [|intros X; discriminate X]); [exact Hp1|now apply persist_abs].
+Qed.
+
+Lemma run_gc_abs st hint st' r :
+  stp st -> run_gc_if_necessary P st hint = (st', r) -> stp st' /\ not_eof r.
+Proof.
+  intros Hp. unfold run_gc_if_necessary.
+  destruct (has_deletable st);
+    [|intros H; inversion H; subst; split; [exact Hp|intros X; discriminate X]].
+  destruct (record_empty_queues_position P st hint) as [st1 ro] eqn:Hr.
+  destruct (record_empty_abs _ _ _ _ Hp Hr) as [Hp1 Hn1].
+  destruct ro as [k|e]; [|intros H; inversion H; subst; split; [exact Hp1|exact Hn1]].
+  destruct (gc_loop (w_ctx (s_wr st1)) (w_files (s_wr st1)) _) as [[c files] rg] eqn:Hg.
+  pose proof (gc_loop_not_eof _ _ _ _ _ _ Hg) as Hn2.
+  assert (Hp2 : planned p c) by (eapply planned_ceq; [eapply gc_loop_ceq; exact Hg|exact Hp1]).
+  destruct rg as [u|e]; intros H; inversion H; subst; unfold stp; cbn [s_wr set_wr w_ctx];
+    (split; [exact Hp2|]); [intros X; discriminate X|].
+  intros X; inversion X; subst. apply Hn2. reflexivity.
+Qed.
+
+Lemma ensure_last_full_abs c files c' r :
+  planned p c -> ensure_last_full P c files = (c', r) -> planned p c'.
+Proof.
+  intros Hp. unfold ensure_last_full.
+  destruct (last_opt files) as [n|]; [|intros H; inversion H; subst; exact Hp].
+  destruct (lenN (file_content c n) <? FILE_BYTES P); [|intros H; inversion H; subst; exact Hp].
+  destruct (open_file c n) as [c1 ro] eqn:Ho.
+  destruct (open_file_abs _ _ _ _ Hp Ho) as [Hp1 _].
+  destruct ro as [u1|e]; intros H; inversion H; subst; [|exact Hp1].
+  eapply planned_ceq; [|exact Hp1]. eapply ceq_trans; [apply ceq_fs|apply ceq_ev].
+Qed.
+
+Lemma rd_open_tail_abs c2 files c rd :
+  planned p c2 -> rd_open_tail P c2 files = (c, Ok rd) -> planned p (rd_ctx rd).
+Proof.
+  intros Hp. unfold rd_open_tail.
+  destruct (if L_SHORT P then (c2, Ok tt) else ensure_last_full P c2 files) as [c2' [u|e]] eqn:He;
+    [|intros H; inversion H].
+  assert (Hp' : planned p c2').
+  { destruct (L_SHORT P); [inversion He; subst; exact Hp|].
+    eapply ensure_last_full_abs; eassumption. }
+  set (first := match files with f :: _ => f | [] => 0 end).
+  destruct (open_file c2' first) as [c3 [u'|e]] eqn:Ho; [|intros H; inversion H].
+  destruct (open_file_abs _ _ _ _ Hp' Ho) as [Hp3 _].
+  destruct (read_block P c3 first 0) as [[c4 pos'] [[blk|]|e]] eqn:Hr;
+    intros H; inversion H; subst.
+  cbn [rd_ctx]. eapply read_block_abs; eassumption.
+Qed.
+
+Lemma rd_open_abs fs c rd :
+  rd_open P (ctx_init fs (Some p)) = (c, Ok rd) -> planned p (rd_ctx rd).
+Proof.
+  rewrite rd_open_eq.
+  assert (Hp0 : planned p (ctx_ev (ctx_init fs (Some p)) EvReadDir)) by reflexivity.
+  pose proof (fault_point_planned p _ SReadDir Hp0) as Hp1.
+  destruct (fault_point (ctx_ev (ctx_init fs (Some p)) EvReadDir) SReadDir) as [c1 [e|]] eqn:Hf;
+    [intros H; inversion H|]. cbn [fst] in Hp1.
+  destruct (list_wal_numbers (c_fs c1)) as [|x l].
+  - destruct (create_file P c1 0) as [c' [u|e]] eqn:Hc; [|intros H; inversion H].
+    apply rd_open_tail_abs. eapply planned_ceq; [eapply create_file_ceq; exact Hc|exact Hp1].
+  - apply rd_open_tail_abs. exact Hp1.
+Qed.
+
+(* every outcome of open: the kind UnexpectedEof is reported only by rd_open; after rd_open has
+   succeeded no read reports anything. No premise on L_IO. *)
+Lemma open_with_abs fuel fs pol hint c :
+  open_with P fuel fs (Some p) pol hint = OpenIo IoUnexpectedEof c ->
+  rd_open P (ctx_init fs (Some p)) = (c, Err IoUnexpectedEof).
+Proof.
+  unfold open_with.
+  destruct (rd_open P (ctx_init fs (Some p))) as [c0 [rd|e]] eqn:Ho;
+    [|intros H; inversion H; subst; reflexivity].
+  apply rd_open_abs in Ho. intros H. exfalso.
+  destruct (replay_loop P fuel fuel (rr_open rreaderS rd) []) as [rr rp] eqn:Hrp.
+  destruct (replay_loop_abs _ _ (rr_open rreaderS rd) _ _ _ Ho Hrp) as [Hp1 Hne].
+  destruct rp as [qs| |e|]; try discriminate H.
+  - destruct (run_gc_if_necessary P _ hint) as [st1 [n|e]] eqn:Hg; [discriminate H|].
+    assert (Hn : @not_eof N (Err e)) by (eapply run_gc_abs; [|exact Hg]; exact Hp1).
+    inversion H; subst. apply Hn. reflexivity.
+  - inversion H; subst. apply Hne. reflexivity.
+Qed.
+
+(* The injected kind reaches the caller of open only through RollingReader::open's first read
+   (`?` on read_block's Ok(false) => UnexpectedEof); every later firing is absorbed. *)
+Theorem open_absorbed_eof_only_first_read fs pol hint c :
+  open P fs (Some p) pol hint = OpenIo IoUnexpectedEof c ->
+  rd_open P (ctx_init fs (Some p)) = (c, Err IoUnexpectedEof).
+Proof. unfold open. apply open_with_abs. Qed.
+End Absorbed.
+
 Check open_reports_io.
 Check open_reports_io_corruption.
 Check open_fired_is_io.
 Print Assumptions open_reports_io.
 Print Assumptions open_reports_io_corruption.
 Print Assumptions open_fired_is_io.
+Check open_absorbed_eof_only_first_read.
+Print Assumptions open_absorbed_eof_only_first_read.
+Print Assumptions read_block_absorbed.
+Print Assumptions read_block_absorbed_as_cut.
